@@ -5,7 +5,7 @@ CONSTANTS NV = 4
           AltSp = TRUE
           MaxView = 2
           MaxHeight = 1
-          MaxId = 1
+          MaxId = 2
           MaxSigns = 3
           NWho = 1
           Rich = FALSE
